@@ -59,6 +59,9 @@ def configs(tier, seed):
     for pk in ('rn2^2', 'rn1^1', 'discr2^2', 'rn(1,1)^1'):
         out.append(('pspace/%s' % pk, dict(kind='pspace', sk=pk)))
     out.append(('memory/wrapping', dict(kind='memory')))
+    # the whole legacy interface against NumPy on IEEE special values (concrete facts: NaN/inf have no real meaning)
+    for sk in ('rn', 'discr', 'pspace', 'f32'):
+        out.append(('legacy-all/%s' % sk, dict(kind='legacy-all', sk=sk)))
     return out
 
 
@@ -102,7 +105,60 @@ def _disarm():
     proxy.STATE.armed = False
 
 
+def _legacy_all(ctx, sk):
+    from symnp import proxy
+    import odl.util.ufuncs as U
+    was, proxy.STATE.armed = proxy.STATE.armed, False
+    try:
+        dt = 'float32' if sk == 'f32' else 'float64'
+        a = np.array([1.5, np.nan, -2.0, 0.0, np.inf, 0.25], dtype=dt)
+        b = np.array([np.nan, 2.0, 3.0, -0.0, 1.0, -np.inf], dtype=dt)
+        if sk == 'pspace':
+            sp = odl.ProductSpace(odl.rn(3), 2)
+            mk = lambda v: sp.element([v[:3], v[3:]])                                   # noqa
+            arr = lambda e: np.concatenate([np.asarray(p_) for p_ in e.parts])          # noqa
+        else:
+            sp = odl.uniform_discr(0, 1, 6, dtype=dt) if sk == 'discr' else odl.rn(6, dtype=dt)
+            mk = lambda v: sp.element(v)                                                 # noqa
+            arr = lambda e: np.asarray(e)                                                # noqa
+        for name, n_in, n_out, _ in U.UFUNCS:
+            npf = getattr(np, name)
+            x, y = mk(a), mk(b)
+            with np.errstate(all='ignore'):
+                try:
+                    want = npf(a) if n_in == 1 else npf(a, b)
+                except TypeError:
+                    continue                    # not defined for floats (bitwise_*, ...)
+                try:
+                    got = getattr(x.ufuncs, name)() if n_in == 1 else getattr(x.ufuncs, name)(y)
+                except (TypeError, ValueError, AttributeError) as exc:
+                    if sk == 'pspace':
+                        continue                # product spaces offer a subset of the interface
+                    ctx.fact('legacy/%s/callable' % name, False, '%s: %s' % (type(exc).__name__, exc))
+                    continue
+            wants = want if isinstance(want, tuple) else (want,)
+            gots = got if isinstance(got, tuple) else (got,)
+            ok = len(wants) == len(gots) and all(
+                np.array_equal(arr(g) if hasattr(g, 'space') else np.asarray(g), w, equal_nan=True)
+                for g, w in zip(gots, wants))
+            ctx.fact('legacy/%s=np.%s' % (name, name), ok,
+                     'got %s expected %s' % ([arr(g) if hasattr(g, 'space') else g for g in gots], wants))
+            if n_out == 1 and sk != 'pspace' and np.asarray(want).dtype == np.dtype(dt):
+                o = sp.element()
+                with np.errstate(all='ignore'):
+                    ret = getattr(x.ufuncs, name)(out=o) if n_in == 1 else getattr(x.ufuncs, name)(y, out=o)
+                ctx.fact('legacy/%s/out-returned' % name, ret is o)
+                ctx.fact('legacy/%s/out-values' % name, np.array_equal(arr(o), want, equal_nan=True),
+                         'got %s expected %s' % (arr(o), want))
+            ctx.fact('legacy/%s/operands-unchanged' % name,
+                     np.array_equal(arr(x), a, equal_nan=True) and np.array_equal(arr(y), b, equal_nan=True))
+    finally:
+        proxy.STATE.armed = was
+
+
 def case(ctx, kind, sk=None, ufunc=None):
+    if kind == 'legacy-all':
+        return _legacy_all(ctx, sk)
     bump = 1 if ctx.canary else 0
     if kind in ('memory', 'twoout'):
         _disarm()           # concrete facts only: ordinary arrays, no symbolic creation
@@ -280,6 +336,17 @@ def case(ctx, kind, sk=None, ufunc=None):
             res = uf.outer(x, y)
             same_kind(ctx, 'outer', res, sp, uf.outer(cx, cx))
             ctx.eq('outer/values', res, ref)
+            # outer with out= (a plain array of the outer shape): written into and returned
+            oo = ctx.array('oouter', tuple(sp.shape) * 2, sp.dtype, garbage=True)
+            ret = uf.outer(x, y, out=oo)
+            ctx.fact('outer/ndarray-out-returned', ret is oo)
+            ctx.eq('outer/ndarray-out-values', oo, ref)
+            if not hasattr(sp, 'partition'):
+                osp2 = odl.tensor_space(tuple(sp.shape) * 2, dtype=sp.dtype)
+                oe = ctx.garbage(osp2, 'oouter_el')
+                ret = uf.outer(x, y, out=oe)
+                ctx.fact('outer/element-out-returned', ret is oe)
+                ctx.eq('outer/element-out-values', oe, ref)
             if sp.dtype == np.dtype('float64') and ufunc in ('add', 'multiply'):
                 # operands of different dtypes: NumPy's result type, not that of the first operand
                 for odt in ('float32', 'complex128'):
